@@ -190,7 +190,7 @@ func c08Judge(seed *c08Seed, doc []byte) (sig string, reached bool, accepted boo
 	}
 	if n >= 1 {
 		calls = append(calls, call{"ProofList.Verify-one-key-fewer", func() bool {
-			return fresh().Verify(keysFor(n - 1), seed.ctx, seed.nonce, seed.issig, nil)
+			return fresh().Verify(keysFor(n-1), seed.ctx, seed.nonce, seed.issig, nil)
 		}})
 	}
 	for i := 0; i < n && i < 6; i++ {
@@ -334,7 +334,9 @@ func TestVF_C08_Mutator(t *testing.T) {
 				cls = "reached-verification/" + c08Subtree(desc)
 			}
 			rec.Case(cls, reached, string(mut))
-			rec.Sample(func() any { return map[string]any{"seed": seed.name, "mutations": desc, "reached_verification": reached} })
+			rec.Sample(func() any {
+				return map[string]any{"seed": seed.name, "mutations": desc, "reached_verification": reached}
+			})
 			if sig != "" {
 				d := map[string]any{"seed": seed.name, "mutations": desc}
 				if len(mut) < 6000 {
@@ -401,9 +403,9 @@ type c08SeedFile struct {
 
 func c08FuzzShapes() ([][]c02Member, [][]c02Member) {
 	return [][]c02Member{
-			{{"disc", 0}}, {{"disc+range", 0}}, {{"disc+range3", 0}}, {{"disc+nonrev", 0}}, {{"disc+nonrev+range", 0}},
-			{{"issue", 0}}, {{"issue+blind", 0}}, {{"disc+nonrev", 0}, {"issue+blind", 1}}, {{"disc+range", 0}, {"disc", 1}, {"issue", 0}},
-		}, [][]c02Member{{{"issue", 0}}, {{"issue+blind", 0}}}
+		{{"disc", 0}}, {{"disc+range", 0}}, {{"disc+range3", 0}}, {{"disc+nonrev", 0}}, {{"disc+nonrev+range", 0}},
+		{{"issue", 0}}, {{"issue+blind", 0}}, {{"disc+nonrev", 0}, {"issue+blind", 1}}, {{"disc+range", 0}, {"disc", 1}, {"issue", 0}},
+	}, [][]c02Member{{{"issue", 0}}, {{"issue+blind", 0}}}
 }
 
 func TestVF_C08_WriteFuzzSeeds(t *testing.T) {
